@@ -23,6 +23,43 @@ partial def blocks : Item → Nat
   | _ => 1
 end
 
+/-- skeletons for the size computation: the tree syntax plus `f(LEN)` / `g(LEN)`, a byte / text string whose recorded length is LEN -/
+partial def pSkel : P Model.Skel := fun cs =>
+  match cs with
+  | 'f' :: '(' :: r => do let (n, r) ← pNum r; let (_, r) ← pChar ')' r; some (.str n, r)
+  | 'g' :: '(' :: r => do let (n, r) ← pNum r; let (_, r) ← pChar ')' r; some (.str n, r)
+  | 'B' :: '[' :: r => do let (ls, r) ← pLens r []; some (.strI ls, r)
+  | 'T' :: '[' :: r => do let (ls, r) ← pLens r []; some (.strI ls, r)
+  | 'A' :: '[' :: r => do let (xs, r) ← pL r []; some (.arr true xs, r)
+  | 'a' :: '[' :: r => do let (xs, r) ← pL r []; some (.arr false xs, r)
+  | 'M' :: '[' :: r => do let (xs, r) ← pP r []; some (.map true xs, r)
+  | 'm' :: '[' :: r => do let (xs, r) ← pP r []; some (.map false xs, r)
+  | 'G' :: '(' :: r => do let (n, r) ← pNum r; let (_, r) ← pChar ',' r; let (x, r) ← pSkel r; let (_, r) ← pChar ')' r; some (.tag n x, r)
+  | _ => do let (x, r) ← pItem cs; some (Model.skel x, r)
+where
+  pLens (cs : List Char) (acc : List Nat) : Option (List Nat × List Char) :=
+    match cs with
+    | ']' :: r => some (acc.reverse, r)
+    | ',' :: r => pLens r acc
+    | _ :: '(' :: r => do let (n, r) ← pNum r; let (_, r) ← pChar ')' r; pLens r (n :: acc)
+    | _ => none
+  pL (cs : List Char) (acc : List Model.Skel) : Option (List Model.Skel × List Char) :=
+    match cs with
+    | ']' :: r => some (acc.reverse, r)
+    | ',' :: r => pL r acc
+    | _ => do let (x, r) ← pSkel cs; pL r (x :: acc)
+  pP (cs : List Char) (acc : List (Model.Skel × Model.Skel)) : Option (List (Model.Skel × Model.Skel) × List Char) :=
+    match cs with
+    | ']' :: r => some (acc.reverse, r)
+    | ',' :: r => pP r acc
+    | _ => do let (k, r) ← pSkel cs; let (_, r) ← pChar ':' r; let (v, r) ← pSkel r; pP r ((k, v) :: acc)
+
+def parseSkel (s : String) : Option Model.Skel :=
+  match pSkel s.toList with
+  | some (x, []) => some x
+  | _ => none
+
+
 def codeName : Code → String
   | .none => "NONE" | .notEnough => "NOTENOUGHDATA" | .noData => "NODATA"
   | .malformed => "MALFORMATED" | .mem => "MEMERROR" | .syntax => "SYNTAXERROR"
@@ -82,6 +119,7 @@ def modelOp (L : Nat) (ws : List String) : Option String :=
   | ["SERA", t] => do some (opSERA (← parseTree t) 0 0)
   | ["SERA", t, m, k] => do some (opSERA (← parseTree t) (← m.toNat?) (← k.toNat?))
   | ["ROUND", t] => do some (opROUND (← parseTree t) L)
+  | ["SIZES", t] => do some s!"{sizeS (← parseSkel t)}"
   | ["LN", h, k] => do
       let pre ← (if h == "-" then some #[] else parseHex h); let k ← k.toNat?
       let total := if k == 0 then 1 else if k == 1 then 256 else 65536
